@@ -46,6 +46,7 @@ Candidates ==
       [] E.a = "Return"  -> D_Decide \/ S_Decide \/ Cancel \/ S_Timeout
       [] E.a = "Deliver" -> IF E.in.x \in pending THEN DeliverHonest(E.in.x) ELSE DeliverAdv(E.in.x)
       [] E.a = "Evict"   -> Evict(E.in.h)
+      [] E.a = "Store"   -> OtherStore(E.in.k, E.out.c)
       [] OTHER           -> FALSE
 Matches ==
     /\ hist' # hist /\ R.a = E.a
@@ -56,6 +57,7 @@ Matches ==
          [] E.a = "Return"  -> R.out.res = E.out.res /\ R.out.rec = E.out.rec /\ R.out.dbkeys = ToSet(E.out.dbkeys)
          [] E.a = "Deliver" -> R.in.x = E.in.x /\ R.out.acc = E.out.acc /\ R.out.key = E.out.key
          [] E.a = "Evict"   -> R.in.h = E.in.h
+         [] E.a = "Store"   -> R.in.k = E.in.k /\ R.out.c = E.out.c
          [] OTHER           -> FALSE
 TEvent == More /\ E.a # "New" /\ l' = l + 1 /\ Candidates /\ Matches
 TInternal ==
@@ -69,8 +71,9 @@ TraceSpec == TraceInit /\ [][TraceNext]_tvars
 (* invariants are evaluated on ALL observed states even when the strict pass stops at a divergence          *)
 TObs ==
     /\ More /\ E.a # "New" /\ l' = l + 1
-    /\ avail' = IF E.a = "Deliver" /\ E.out.acc THEN avail \cup {E.out.key} ELSE avail
-    /\ db' = IF E.a = "Put" THEN (E.in.k :> E.out.c) @@ db ELSE db
+    /\ avail' = IF E.a = "Deliver" /\ E.out.acc THEN avail \cup {E.out.key}
+              ELSE IF E.a = "Store" THEN avail \cup {E.out.c} ELSE avail
+    /\ db' = IF E.a \in {"Put", "Store"} THEN (E.in.k :> E.out.c) @@ db ELSE db
     /\ result' = IF E.a = "Return" THEN E.out.res ELSE result
     /\ rec' = IF E.a = "Return" THEN E.out.rec ELSE rec
     /\ UNCHANGED <<cfg, cache, pending, budget, pc, missing, existing, todo, may, cur, checked, newMissing, newEl,
